@@ -303,6 +303,16 @@ type c09Session struct {
 	history   []string
 	accepted  int
 	outcomes  []byte
+	feeds     int
+	release   []func() // write-protected inputs are handed back when the session ends
+}
+
+// done releases the write-protected inputs of the session (the receivers may have aliased them until now).
+func (s *c09Session) done() {
+	for _, f := range s.release {
+		f()
+	}
+	s.release = nil
 }
 
 func newC09Session(k c09Kind) *c09Session {
@@ -349,13 +359,27 @@ func (s *c09Session) feed(c *fw.Ctx, p []byte, r *fw.Rand) bool {
 	}
 	inA := cp()
 	canary := func() bool { return false }
-	if len(s.history)%2 == 0 {
+	roInput := false
+	s.feeds++
+	if len(p) > 0 && (c.Index*7+s.feeds)%64 == 7 {
+		// a write-protected input: any store into it faults, also one that is undone before the call returns
+		if ro, release, ok := fw.ReadOnly(p); ok {
+			inA, roInput = ro, true
+			s.release = append(s.release, release)
+			c.Count("unmarshal_calls_with_write_protected_input", 1)
+		}
+	}
+	if len(s.history)%2 == 0 && !roInput {
 		inA, canary = fw.Roomy(p, 24)
 	}
 	var outA []byte
 	var errA error
 	var metaA string
-	if pv, st := fw.Guard(func() { outA, errA, metaA = s.a.Feed(inA) }); pv != nil {
+	if pv, st, fault := fw.GuardFault(func() { outA, errA, metaA = s.a.Feed(inA) }); pv != nil {
+		if fault && roInput {
+			c.Fail("C09/"+name+"/input-modified/write-protected-input/"+fw.PanicFunc(st), "the depacketizer stores into the caller's payload buffer (the payload was write-protected: the store faulted)", wit("stack", st))
+			return false
+		}
 		c.Fail("C09/"+name+"/panic/Unmarshal/"+fw.PanicFunc(st), fmt.Sprintf("Unmarshal panicked on a reused receiver: %v", pv), wit("stack", st))
 		return false
 	}
@@ -495,6 +519,7 @@ func (s *c09Session) shape(c *fw.Ctx, kinds string) {
 func c09Short(c *fw.Ctx, i int) {
 	for _, k := range c09Kinds {
 		s := newC09Session(k)
+		defer s.done()
 		feed := func(b []byte) bool { return s.feed(c, b, nil) }
 		switch {
 		case i == 0:
@@ -521,6 +546,7 @@ func c09Short(c *fw.Ctx, i int) {
 func c09Three(c *fw.Ctx, i int) {
 	for _, k := range c09Kinds {
 		s := newC09Session(k)
+		defer s.done()
 		for b := 0; b < 256; b++ {
 			if !s.feed(c, []byte{byte(i >> 8), byte(i), byte(b)}, nil) {
 				return
@@ -596,6 +622,7 @@ func c09Seq(c *fw.Ctx, i int) {
 	r := c.R
 	kind := c09Kinds[i%len(c09Kinds)]
 	s := newC09Session(kind)
+	defer s.done()
 	n := r.Range(1, 20)
 	var pool [][]byte
 	kinds := ""
